@@ -98,6 +98,7 @@ type section struct {
 	def    secdef
 	schema common.C15Section
 	base   map[string]interface{} // base JSON (default, secrets and host dependent values fixed)
+	bad    bool                   // the default configuration could not be produced, saved or loaded
 	baseB  []byte
 }
 
@@ -428,6 +429,9 @@ func fullFile(override map[string]interface{}) map[string]interface{} {
 			continue
 		}
 		var v interface{} = clone(s.base)
+		if s.bad {
+			v = absentT{}
+		}
 		if o, ok := override[s.def.name]; ok {
 			v = o
 		}
@@ -544,7 +548,53 @@ func subtype(f *common.C15Field) string {
 const peerA = "QmXZrtE5jQwXNqCJMfHUTQkvhQ4ZAnqMnmzFMJfLewuabc"
 const peerB = "12D3KooWA6MkbUuUoq3nyFqKjwhQXQ1CmNRy62kQSb8NU5Yqfbbt"
 
+// constJSON renders a constant of the translator as a JSON value for a field of type ty.
+func constJSON(ty string, c common.C15Const) (string, bool) {
+	switch {
+	case ty == "dur" && (c.Kind == "dur" || c.Kind == "int"):
+		return strconv.Quote(time.Duration(c.I).String()), true
+	case (ty == "int" || ty == "uint" || ty == "ptrint") && c.Kind == "int":
+		return strconv.FormatInt(c.I, 10), true
+	case ty == "str" && c.Kind == "str":
+		b, _ := json.Marshal(c.S)
+		return string(b), true
+	case (ty == "float" || ty == "ptrfloat") && c.Kind == "float":
+		return c.S, true
+	}
+	return "", false
+}
+
+// pool = the fixed boundary values of the type plus every default / omit constant the translator saw for
+// a setting of the same type in the same section (a save that compares with the wrong constant, or a load
+// into a sibling's field, shows on exactly those values).
 func pool(f *common.C15Field) []pv {
+	p := typePool(f)
+	if subtype(f) != "" {
+		return p
+	}
+	seen := map[string]bool{}
+	for _, e := range p {
+		seen[e.json] = true
+	}
+	if s := byName[f.Section]; s != nil {
+		for i := range s.schema.Fields {
+			g := &s.schema.Fields[i]
+			for _, c := range []common.C15Const{g.Default, g.OmitConst} {
+				if js, ok := constJSON(f.Ty, c); ok && !seen[js] {
+					seen[js] = true
+					vc := "wf"
+					if js == "0" || js == `"0s"` {
+						vc = "zero"
+					}
+					p = append(p, pv{js, vc})
+				}
+			}
+		}
+	}
+	return p
+}
+
+func typePool(f *common.C15Field) []pv {
 	switch subtype(f) {
 	case "maddr":
 		if f.Ty == "list" {
@@ -790,6 +840,9 @@ func applyNoise(m map[string]interface{}, s *section, noise string) bool {
 
 func runSet(c setCase) {
 	s, f := c.s, c.f
+	if s.bad {
+		return
+	}
 	v, err := decodeAny(c.val)
 	if err != nil {
 		out.Line("# bad-value %s", c.val)
@@ -888,6 +941,51 @@ func runDefault(s *section) {
 	out.Line("C15 default %s => %s", s.def.name, o.short())
 }
 
+// runDefaultFile: Manager.Default() over all registered sections, saved, loaded by a fresh Manager, saved again.
+func runDefaultFile() {
+	var o obs
+	m, _ := newManager()
+	defer m.Shutdown()
+	o.res = guard(m.Default)
+	if o.res == "ok" {
+		if guard(m.Validate) == "ok" {
+			o.valid = 1
+		}
+		var j1 []byte
+		if r := guard(func() error {
+			var err error
+			j1, err = m.ToJSON()
+			return err
+		}); r == "panic" {
+			o.res = "panic"
+		} else if r == "ok" {
+			m2, _ := newManager()
+			defer m2.Shutdown()
+			if guard(func() error { return m2.LoadJSON(j1) }) == "ok" {
+				var j2 []byte
+				if guard(func() error {
+					var err error
+					j2, err = m2.ToJSON()
+					return err
+				}) == "ok" && bytes.Equal(j1, j2) {
+					o.fix = 1
+				}
+			}
+			var disp []byte
+			if guard(func() error {
+				var err error
+				disp, err = m.ToDisplayJSON()
+				return err
+			}) == "panic" {
+				o.res = "panic"
+			} else if leaks(disp, j1) {
+				o.leak = 1
+			}
+		}
+	}
+	out.Line("C15 default file => %s", o.short())
+}
+
 var shapeVariants = []string{"null", "7", `"x"`, "[]", "{}", "true", `{"unknown_key_verif":1}`, `{"":null}`, "[{}]", `{"a":{"b":{"c":[1,2,{"d":null}]}}}`}
 var rawVariants = map[string]string{"empty": "", "truncated": `{"cluster": {"peername": "x"`, "garbage": "\x00\x01{", "array": "[1,2]", "null": "null", "number": "7",
 	"nulgroups": `{"cluster":null,"consensus":null,"api":null,"ipfs_connector":null,"pin_tracker":null,"monitor":null,"informer":null,"observations":null,"datastore":null}`,
@@ -926,10 +1024,12 @@ func runShape(where, secName, variant string) {
 			return
 		}
 		o = loadFile([]byte(raw), nil, nil)
+	case "rawbytes":
+		o = loadFile([]byte(variant), nil, nil)
 	default:
 		return
 	}
-	out.Line("C15 shape %s %s %s => %s", where, secName, esc(variant), o.short())
+	out.Line("C15 shape %s %s v:%s => %s", where, secName, esc(variant), o.short())
 }
 
 // ---------- setup ----------
@@ -949,12 +1049,20 @@ func setup() {
 		if sd.name == "identity" {
 			s.base = clone(idJSON).(map[string]interface{})
 		} else {
+			// a component whose default cannot be produced or saved is reported by its
+			// `default` case; its value sweeps are skipped
 			c := sd.mk()
-			must(c.Default())
-			b, err := c.ToJSON()
-			must(err)
-			s.base, err = decode(b)
-			must(err)
+			var b []byte
+			if guard(c.Default) != "ok" {
+				s.bad = true
+			} else if b, _ = toJSON(c); b == nil {
+				s.bad = true
+			} else if s.base, err = decode(b); err != nil {
+				s.bad = true
+			}
+			if s.bad {
+				s.base = map[string]interface{}{}
+			}
 		}
 		switch sd.name {
 		case "cluster":
@@ -969,7 +1077,7 @@ func setup() {
 		s.baseB = []byte(compact(s.base))
 		chk := sd.mk()
 		if r := guard(func() error { return chk.LoadJSON(s.baseB) }); r != "ok" {
-			must(fmt.Errorf("base JSON of %s does not load (%s)", sd.name, r))
+			s.bad = true
 		}
 		sections = append(sections, s)
 		byName[sd.name] = s
@@ -993,6 +1101,9 @@ type fref struct {
 func allFields() []fref {
 	var l []fref
 	for _, s := range sections {
+		if s.bad {
+			continue
+		}
 		for i := range s.schema.Fields {
 			l = append(l, fref{s, &s.schema.Fields[i]})
 		}
@@ -1061,6 +1172,7 @@ func boundary(suite string, tier string) {
 			}
 		}
 	case "file":
+		runDefaultFile()
 		for _, fr := range fields {
 			for _, p := range pool(fr.f) {
 				runSet(setCase{"file", fr.s, fr.f, p.json, p.vc, "-"})
@@ -1096,9 +1208,47 @@ func boundary(suite string, tier string) {
 	}
 }
 
+// mangle applies a few byte edits to a JSON text (the malformed stream).
+func mangle(b []byte, r *common.Rng) string {
+	x := append([]byte{}, b...)
+	for n := 1 + r.Intn(3); n > 0 && len(x) > 0; n-- {
+		i := r.Intn(len(x))
+		switch r.Intn(5) {
+		case 0:
+			x = append(x[:i], x[i+1:]...)
+		case 1:
+			x = x[:i]
+		case 2:
+			x[i] = byte(r.Intn(256))
+		case 3:
+			ins := []string{"null", "{", "}", "[", "]", "\"", ",", ":", "1e999", "-", "\\u0000", "{}"}[r.Intn(12)]
+			x = append(x[:i], append([]byte(ins), x[i:]...)...)
+		case 4:
+			j := r.Intn(len(x))
+			x[i], x[j] = x[j], x[i]
+		}
+	}
+	return string(x)
+}
+
 func random(suite string, k int) {
 	fields := allFields()
 	r := common.NewRng(common.Seed()).Fork(uint64(k))
+	if len(fields) == 0 {
+		return
+	}
+	if r.Chance(1, 12) {
+		s := sections[r.Intn(len(sections))]
+		if s.bad {
+			return
+		}
+		if suite == "file" {
+			runShape("rawbytes", "-", mangle([]byte(compact(fullFile(nil))), r))
+		} else {
+			runShape("alone", s.def.name, mangle(s.baseB, r))
+		}
+		return
+	}
 	fr := fields[r.Intn(len(fields))]
 	p := randomValue(fr.f, r)
 	noise := "-"
@@ -1140,12 +1290,14 @@ func replay(line string) {
 	}
 	switch w[0] {
 	case "default":
-		if s := byName[w[1]]; s != nil {
+		if w[1] == "file" {
+			runDefaultFile()
+		} else if s := byName[w[1]]; s != nil {
 			runDefault(s)
 		}
 	case "shape":
 		if len(w) >= 4 {
-			v, _ := url.QueryUnescape(w[3])
+			v, _ := url.QueryUnescape(strings.TrimPrefix(w[3], "v:"))
 			runShape(w[1], w[2], v)
 		}
 	case "set":
